@@ -118,7 +118,7 @@ NotI == mode = "init" /\ UNCHANGED <<cvars, rvars, fvars, avars, svars>>
 \* =============================== Mode "read" ===============================
 Dl == IF rd = 0 THEN 0 ELSE Deadlines[rd]          \* deadline of the current read
 
-\* the reader returns r. Ghosts: bad = a result the property forbids; lead = EOS after the peer's close although enough bytes had arrived
+\* the reader returns r. Ghosts: bad = a result the property forbids; lead = EOS after the peer's close (no local Close involved) although enough bytes had arrived
 Return(r, nrbuf, npend) ==
   /\ rpc' = "idle" /\ res' = r /\ tmr' = "off" /\ tdl' = 0
   /\ pend' = npend
@@ -128,7 +128,7 @@ Return(r, nrbuf, npend) ==
             ELSE IF r = "timeout" /\ (Dl = 0 \/ now < Dl) THEN "timeout-before-deadline"
             ELSE IF r \in {"eos", "closed"} /\ ~cls /\ st = "open" THEN "error-without-a-cause"
             ELSE ""
-  /\ lead' = (lead \/ (r = "eos" /\ peerClosed /\ nrbuf + npend >= Need))
+  /\ lead' = (lead \/ (r = "eos" /\ peerClosed /\ cpc = "idle" /\ nrbuf + npend >= Need))
 
 Arm == IF Dl # 0 THEN tmr' = "armed" /\ tdl' = Dl ELSE UNCHANGED <<tmr, tdl>>
 Keep == UNCHANGED <<now, rd, tok, cls, st, sess, dpc, dsz, arr, peerClosed, cpc>> /\ NotR
@@ -143,7 +143,8 @@ RStart ==      \* ReadBytes(Need) is called; it enters readMore only when the bu
 \* callback goroutine before OnData: moveTo | for s.IsOpen() && | s.recvBuf.Len() > 0 { OnData -> ReadBytes(Need) }
 R_g1 == /\ rpc = "g1" /\ rbuf' = rbuf + pend /\ pend' = 0 /\ rpc' = "g2"
         /\ UNCHANGED <<res, tmr, tdl, bad, lead>> /\ Keep
-R_g2 == /\ rpc = "g2" /\ rpc' = (IF st = "open" THEN "g3" ELSE "idle")       \* not open: OnData is not called at all
+R_g2 == /\ rpc = "g2"            \* not open: OnData is not called; the goroutine goes round again while data is pending
+        /\ rpc' = (IF st = "open" THEN "g3" ELSE IF pend > 0 THEN "g1" ELSE "idle")
         /\ UNCHANGED <<res, pend, rbuf, tmr, tdl, bad, lead>> /\ Keep
 R_g3 == /\ rpc = "g3"
         /\ LET n == rbuf + pend IN
@@ -227,10 +228,12 @@ CloseFin ==
   /\ UNCHANGED <<now, tok, st, sess, tmr, tdl, dpc, dsz, arr, peerClosed>> /\ RKeep
 CloseCb ==          \* callback mode, Stream.Close by another goroutine while the callback goroutine is active
                     \* (callbackInProcess = 1): the close is deferred - callbackCloseState := waitExit, CAS open -> half,
-                    \* return. closeNotifyCh is NOT closed; the real close happens when the callback goroutine leaves.
+                    \* safeCloseNotify (since commit 0f276d8; before it closeNotifyCh stayed open and TLC refuted
+                    \* ReadReturnsAnyClose: finding callback-close-leaves-reader-blocked), return. The real close happens
+                    \* when the callback goroutine leaves.
   /\ rc.cb /\ "close" \in Events /\ cpc = "idle" /\ rpc # "idle" /\ st # "closed" /\ cpc' = "done"
-  /\ st' = (IF st = "open" THEN "half" ELSE st)
-  /\ UNCHANGED <<now, pend, rbuf, tok, cls, sess, tmr, tdl, dpc, dsz, arr, peerClosed>> /\ RKeep
+  /\ st' = (IF st = "open" THEN "half" ELSE st) /\ cls' = TRUE
+  /\ UNCHANGED <<now, pend, rbuf, tok, sess, tmr, tdl, dpc, dsz, arr, peerClosed>> /\ RKeep
 SessNotify ==
   /\ "sess" \in Events /\ sess = "up" /\ sess' = "notified"
   /\ cls' = (IF st = "closed" THEN cls ELSE TRUE)       \* a stream that already left the table is not notified
@@ -254,9 +257,8 @@ Released == \/ cls
             \/ (dpc = "idle" /\ pend + rbuf >= Need)
 ReadFair == WF_vars(ReaderStep) /\ WF_vars(ArrAdd) /\ WF_vars(ArrNotify) /\ WF_vars(CloseFin) /\ WF_vars(TimerFire)
 ReadReturns == (rpc # "idle" /\ Released) ~> (rpc = "idle")
-\* what the property asks for: a close by EITHER end releases the reader. In callback mode a local Close is only deferred
-\* (CloseCb) and gives no notification: TLC refutes this formula for cb configurations (lead of finding
-\* callback-close-leaves-reader-blocked); it is checked in a separate run and the counterexample is staged on the real code.
+\* what the property asks for, independent of closeNotifyCh: a completed close by EITHER end releases the reader (in callback
+\* mode a local Close is only deferred, CloseCb; before commit 0f276d8 it gave no notification and TLC refuted this formula).
 ReadReturnsAnyClose == (rpc # "idle" /\ (Released \/ (cpc = "done" /\ st # "open"))) ~> (rpc = "idle")
 NoBadResult == bad = ""
 NoEosWithData == ~lead           \* not a C11 verdict (the read did return); holds since commit 45496fc, see the notes
